@@ -1155,6 +1155,13 @@ def verify_exception(x, M, lib, f, e):
         def gen_empty(z):
             return is_call(z, '::empty') and 'gen_res' in show(z.get('obj') or {})
         ok = any(isinstance(label, bool) and guard_implies(cond, label, gen_empty, False) for cond, label, cn in gg.guards_of(ev))
+        if not ok:
+            # any other spelling of the same test (gen_res.size() == 0 returns early, size() > 0, ...): evaluated for an empty list
+            from .genrules import size_table
+            for cond, label, cn in gg.guards_of(ev):
+                tb = size_table(cond, lambda o: 'gen_res' in show(o)) if isinstance(label, bool) else None
+                if tb is not None and tb[0] != label:
+                    ok = True
         return ok, 'evaluated only under !gen_res.empty()'
     if v == 'macro_pushed_before_definition_body':
         # callers of push_rule/push_replacement are D/MD/A; D is called only from S after push_macro; MD/A only from D/MD/A
@@ -1213,6 +1220,8 @@ def location_ok(lib, f, file_e, line_e):
         fb = show(froot) + '.' + '.'.join(fpath[:-1]) if froot is not None else '.'.join(fpath[:-1])
         lb = show(lroot) + '.' + '.'.join(lpath[:-1]) if lroot is not None else '.'.join(lpath[:-1])
         return True, 'fields %s / %s' % (show(fe), show(le))
+    if fpath[-1:] in (['msg'], ['message']) and fe.get('k') == 'member':
+        return False, 'the file of the record is taken from the message field %s of another record: the location names no supplied file' % show(fe)
     if fe.get('k') == 'ref' and le.get('k') == 'ref':
         if fe.get('dk') == 'param' or le.get('dk') == 'param':
             return True, 'forwarded parameters %s / %s' % (fe['name'], le['name'])
